@@ -232,6 +232,11 @@ func c15Features(stmts []*gen.LStmt, f map[string]int, inBoard string) {
 			if inBoard != "" {
 				f["glob_in_board"]++
 			}
+		case s.Tag == "glob" && s.IsEdge():
+			f["glob_connection"]++
+			if inBoard != "" {
+				f["glob_in_board"]++
+			}
 		case s.Tag == "glob":
 			if len(s.Key) == 1 && s.Val != nil {
 				f["glob_sets_primary"]++
@@ -352,7 +357,7 @@ func c15Judge(prog []*gen.LStmt) (v c15Verdict) {
 // specific first. "" = no named trigger (the signature then lists the features).
 func c15Class(v c15Verdict) string {
 	f, k := v.feat, v.board.kind
-	glob := f["glob_single"]+f["glob_double"]+f["glob_triple"] > 0
+	glob := f["glob_single"]+f["glob_double"]+f["glob_triple"]+f["glob_connection"] > 0
 	steps := f["block_steps"]+f["nested_steps_in_layers"]+f["nested_steps_in_scenarios"]+f["nested_steps_in_steps"] > 0
 	belowLayer := f["nested_steps_in_layers"]+f["nested_scenarios_in_layers"] > 0
 	switch {
@@ -365,7 +370,7 @@ func c15Class(v c15Verdict) string {
 		return "glob-and-null-in-inherited-content"
 	case f["glob_double"] > 0 && (f["substitution"] > 0 || f["class_applied"] > 0):
 		return "double-glob-decorates-vars-or-classes"
-	case steps && f["glob_single"]+f["glob_double"] > 0:
+	case steps && f["glob_single"]+f["glob_double"]+f["glob_connection"] > 0:
 		return "step-shares-glob-applied-set-with-base"
 	case f["glob_triple"] > 0 && f["glob_sets_primary"] >= 2 && (k == "scenarios" || k == "steps"):
 		// two globs set the primary; the later one is declared in the inheriting board
